@@ -17,6 +17,7 @@ use crate::{
         time::Time,
     },
     rtps::stateful_writer::RtpsStatefulWriter,
+    transport::types::Guid,
     xtypes::dynamic_type::DynamicData,
 };
 use alloc::{string::String, vec::Vec};
@@ -97,6 +98,24 @@ impl UserDefinedDataWriter {
 
         self.publication_matched_status.current_count = self.matched_subscription_list.len() as i32;
         self.publication_matched_status.current_count_change -= 1;
+    }
+
+    /// Removes the RTPS proxy of a reader that is no longer matched. The callers of
+    /// wait_for_acknowledgments are otherwise only answered when an ACKNACK arrives: if the
+    /// departed reader was the one holding the acknowledgement back, nobody will send it.
+    pub fn delete_matched_reader(&mut self, reader_guid: Guid) {
+        self.writer
+            .transport_writer
+            .delete_matched_reader(reader_guid);
+        if self
+            .writer
+            .transport_writer
+            .is_change_acknowledged(self.writer.last_change_sequence_number)
+        {
+            for n in self.wait_for_acknowledgments_notification.drain(..) {
+                n.send(Ok(()));
+            }
+        }
     }
 
     pub fn get_offered_deadline_missed_status(&mut self) -> OfferedDeadlineMissedStatus {
